@@ -267,12 +267,14 @@ def _field_may_have_null_byte_order(field, type_definition, ir):
     # If the field is one unit in length, then byte order does not matter.  (An
     # array's elements are read through their own, element-sized views, so for
     # arrays only the element size counts.)
-    if (
-        not field.type.has_field("array_type")
-        and ir_util.is_constant(field.location.size)
-        and ir_util.constant_value(field.location.size) == 1
+    #
+    # A non-array field is read as a whole, so its own size decides whenever it
+    # is known: an anonymous `bits` may be smaller than its field, and the 8 bits
+    # of `0 [+2]  bits:` live in a byte-order-dependent place.
+    if not field.type.has_field("array_type") and ir_util.is_constant(
+        field.location.size
     ):
-        return True
+        return ir_util.constant_value(field.location.size) == 1
     unit = type_definition.addressable_unit
     # Otherwise, if the field's type is either a one-unit-sized type or an array
     # of a one-unit-sized type, then byte order does not matter.
